@@ -290,6 +290,13 @@ pub fn check_b(case: &CaseB) -> Result<Option<ObsB>, (String, String)> {
     if inproc.end == RunEnd::Budget { return Ok(None); }
     let dir = scratch_dir();
     std::fs::write(dir.join("x.fml"), &source).unwrap();
+    if case.log_path.starts_with("lnk/") {
+        // `lnk` is a symbolic link to a directory two levels down elsewhere: `lnk/..` is NOT the scratch directory. The file
+        // named on the command line is the one the operating system resolves, and that is where the harness reads it back.
+        let _ = std::fs::create_dir_all(dir.join("elsewhere/deep"));
+        let _ = std::os::unix::fs::symlink("elsewhere/deep", dir.join("lnk"));
+    }
+    if case.log_path.starts_with("./logs/./x/") { let _ = std::fs::create_dir_all(dir.join("logs/x")); }
     let mut children = 0u64;
     let input: &str = if case.action == "execute" {
         // produce x.bc with the same build (no faults)
@@ -387,11 +394,12 @@ pub fn check_b(case: &CaseB) -> Result<Option<ObsB>, (String, String)> {
     let f = run_child(&dir, &flagged);
     children += 1;
     let log_hard_fired = case.log_hard.is_some() && f.trace.lines().any(|l| l.starts_with("W f ") && l.contains("-> E") && !l.ends_with("-> E4"));
-    let log = match fifo_reader {
+    let log_is_stderr = case.log_path == "/proc/self/fd/2";
+    let log = if log_is_stderr { Ok(f.stderr.clone()) } else { match fifo_reader {
         // if the tool never opened the FIFO for writing the reader is still waiting in open(): open and close the write side
         Some(h) => { let _ = std::fs::OpenOptions::new().write(true).open(dir.join(&case.log_path)); Ok(h.join().unwrap_or_default()) }
         None => std::fs::read(dir.join(&case.log_path)),
-    };
+    } };
     let _ = std::fs::remove_dir_all(&dir);
     if p.exit == Exit::Timeout || f.exit == Exit::Timeout {
         return Ok(None);
@@ -417,7 +425,7 @@ pub fn check_b(case: &CaseB) -> Result<Option<ObsB>, (String, String)> {
         return Err(("H6:behaviour_changed_by_memory_flags".into(), format!("`fml {}` without flags: {} / {} bytes of stdout; with --heap-log{}: {} / {} bytes",
             case.action, p.exit.show(), p.stdout.len(), size_text.as_ref().map(|s| format!(" --heap-size {}", s)).unwrap_or_default(), f.exit.show(), f.stdout.len())));
     }
-    if p.stderr.is_empty() != f.stderr.is_empty() {
+    if p.stderr.is_empty() != f.stderr.is_empty() && !log_is_stderr {
         return Err(("H6:diagnostics_changed_by_memory_flags".into(), "stderr is empty in one run and not in the other".into()));
     }
     if f.exit.is_native_crash() {
@@ -520,6 +528,23 @@ fn minimise_b(case: &CaseB, oracle: &str) -> CaseB {
 
 // ------------------------------------------------------------------------------------------------
 
+pub fn counted_templates() -> Vec<(String, u64)> {
+    vec![
+        // o, then 3 x o.get(0) -> 3 arrays, then the outer array: 1 + 3 + 1
+        ("let o = object begin function get(i) -> array(2, i); end;\nlet k = 0;\nlet a = array(3, o[k]);\nprint(\"~\\n\", a)\n".into(), 5),
+        // the same through a literal index and a field
+        ("let o = object begin let n = 1; function get(i) -> object begin let v = i; end; end;\nlet a = array(4, o[7]);\nprint(\"~\\n\", a)\n".into(), 6),
+        // a function call as initialiser: once per element
+        ("function mk() -> array(1, 0);\nlet a = array(5, mk());\nprint(\"~\\n\", a)\n".into(), 6),
+        // size 0 and 1: the initialiser runs 0 times / once
+        ("function mk() -> object begin end;\nlet a = array(0, mk());\nlet b = array(1, mk());\nprint(\"~ ~\\n\", a, b)\n".into(), 3),
+        // nested compound initialisers: 2 x (inner array of 3 objects) -> 2 * (3 + 1) + 1
+        ("let a = array(2, array(3, object begin end));\nprint(\"~\\n\", a)\n".into(), 9),
+        // an array element read is not an allocation; a simple initialiser is evaluated once and shared
+        ("let src = array(2, 5);\nlet a = array(6, src[1]);\nlet b = array(3, src);\nprint(\"~ ~\\n\", a, b)\n".into(), 3),
+    ]
+}
+
 fn allocating_cfg(rng: &mut Rng) -> GenCfg {
     let mut cfg = GenCfg::swarm(rng);
     cfg.f_objects = true;
@@ -551,6 +576,11 @@ pub fn run(seed: u64, tier: &str, ev: &mut Evidence) -> Vec<Violation> {
     let mut specs: Vec<(ProgSpec, Option<u64>)> = work::corpus_specs().into_iter().filter(|(_, s)| s.source().is_some()).map(|(_, s)| (s, None)).collect();
     for (_, src) in work::scale_templates() {
         specs.push((ProgSpec::Source(src), None));
+    }
+    // hand-written programs whose allocation count is known by reading them: evaluation counts of compound initialisers, of
+    // `x[k]` on an object (an ordinary call of its `get`), of calls in argument position — once per element, never hoisted or shared
+    for (src, n) in counted_templates() {
+        specs.push((ProgSpec::Source(src), Some(n)));
     }
     for j in 0..n_a {
         let mut rng = Rng::for_case(seed, "C16", "workload", j as u64);
@@ -690,7 +720,7 @@ pub fn run(seed: u64, tier: &str, ev: &mut Evidence) -> Vec<Violation> {
             profile: if rng.coin() { Profile::Debug } else { Profile::Release },
             action: if rng.below(3) == 0 { "execute".into() } else { "run".into() },
             size_mb: if rng.below(4) == 0 { None } else { Some(*rng.pick(&SIZES_MB)) },
-            log_path: (*rng.pick(&["heap.csv", "logs/heap.csv", "a/b/c/heap log.csv", "./h"])).to_string(),
+            log_path: (*rng.pick(&["heap.csv", "logs/heap.csv", "a/b/c/heap log.csv", "./h", "lnk/../heap.csv", "./logs/./x/../heap.csv"])).to_string(),
             clock: match rng.below(9) {
                 // a clock that runs backwards steadily: every reading is earlier than the one before
                 0 => Some("1700000000000000000:-1000000".to_string()),
@@ -724,7 +754,12 @@ pub fn run(seed: u64, tier: &str, ev: &mut Evidence) -> Vec<Violation> {
             _ => {}
         }
         if case.fifo_log || case.overlap_logdir.is_some() { case.log_hard = None; case.as_limit = None; }
-        if i % 5 == 3 && case.log_hard.is_none() && !case.fifo_log && case.overlap_logdir.is_none() {
+        // the log named through the descriptor directory (what `--heap-log >(gzip > x.gz)` passes): here descriptor 2, a pipe the
+        // harness reads; only for programs that end well and quietly, so that the pipe carries the log and nothing else
+        if i % 17 == 9 && !case.fifo_log && case.overlap_logdir.is_none() && case.log_hard.is_none() && !case.stale_log && !case.deleted_cwd && case.plan.is_empty() {
+            if let Ok(prog) = case.spec.build() { if vm::run(&prog, &RunCfg { step_budget: 1_500_000, ..Default::default() }).end == RunEnd::Ok { case.log_path = "/proc/self/fd/2".into(); } }
+        }
+        if i % 5 == 3 && case.log_hard.is_none() && !case.fifo_log && case.overlap_logdir.is_none() && case.log_path != "/proc/self/fd/2" {
             // stdout fails hard at one of its first write calls (EPIPE: the reader went away; ENOSPC/EIO: the redirection target)
             case.stdout_fault = Some(format!("o:{}:x:{}", rng.below(6), rng.pick(&[32u32, 32, 28, 5])));
         }
